@@ -78,7 +78,9 @@ func closureEscapes(fn *ssa.Function) (bool, string) {
 						}
 						callee := ""
 						if sc := x.Call.StaticCallee(); sc != nil && sc.Object() != nil {
-							callee = sc.Object().(*types.Func).FullName()
+							if fo, isFunc := sc.Object().(*types.Func); isFunc {
+								callee = fo.FullName()
+							}
 						}
 						if syncIterators[callee] {
 							continue
